@@ -31,7 +31,7 @@ package certificate
 //@   ensures @C08 fresh(certificate.kind) && fresh(certificate.len) && fresh(certificate.payload) && disjoint(certificate.kind, certificate.len, certificate.payload)
 //@   ensures @C03 @C01 (err == nil) == (len(data) >= 3 && u16(data[1:3]) <= len(data)-3)
 //@   ensures @C03 err != nil ==> certificate == nil && same(remainder, data)
-//@   ensures @C01 @C03 err == nil ==> CertInv(certificate)
+//@   ensures @C01 @C03 @C18 err == nil ==> CertInv(certificate)
 //@   ensures @C03 err == nil ==> suffix(remainder, data, 3+u16(data[1:3]))
 //@   ensures @C01 err == nil ==> seqeq(certificate.kind, data[0:1]) && seqeq(certificate.len, data[1:3]) && seqeq(certificate.payload, data[3:])
 //@   modifies nothing
@@ -79,7 +79,7 @@ package certificate
 
 //@ contract NewCertificateWithType(certType uint8, payload []byte) (c *Certificate, err error)
 //@   ensures @C14 (err == nil) == (certType <= 5 && len(payload) <= 65535 && (certType != 0 || len(payload) == 0) && (certType != 2 || len(payload) == 0) && (certType != 3 || len(payload) == 40 || len(payload) == 72))
-//@   ensures @C14 err == nil ==> CertInv(c) && CertType(c) == int(certType) && CertLen(c) == len(payload) && seqeq(c.payload, payload) && fresh(c.payload)
+//@   ensures @C14 @C18 err == nil ==> CertInv(c) && CertType(c) == int(certType) && CertLen(c) == len(payload) && seqeq(c.payload, payload) && fresh(c.payload)
 //@   ensures err != nil ==> c == nil
 //@   modifies nothing
 
